@@ -271,3 +271,16 @@ def build_T11c(tree):
 
 
 TARGETS['T11c'] = {'file': 'io.py', 'build': build_T11c}
+
+
+# ---- per-property target files: translate/targets_Cnn.py each define TARGETS = {...}
+import glob as _glob
+import importlib as _importlib
+import os as _os
+for _f in sorted(_glob.glob(_os.path.join(_os.path.dirname(_os.path.abspath(__file__)), 'targets_C*.py'))):
+    _m = _importlib.import_module(_os.path.basename(_f)[:-3])
+    _importlib.reload(_m)
+    for _k, _v in _m.TARGETS.items():
+        if _k in TARGETS:
+            raise RuntimeError(f'duplicate translation target {_k} in {_f}')
+        TARGETS[_k] = _v
